@@ -127,4 +127,26 @@ C05_NoOverdraw ==
      /\ \A a \in Accounts : Delta(a) < 0 => (PreBal(a) = Cap \/ -Delta(a) <= PreBal(a))
      /\ (ev.type = "send" /\ ev.sender_pre_bal < Cap /\ ev.value + ev.fee > ev.sender_pre_bal) => ev.class = "rejected"
      /\ ev.class = "rejected" => ev.changed_all = 0 /\ Len(ev.delta) = 0
+
+(* C05 / Ledger!ApplyTransfer on the real code: for calls of the probe contract the    *)
+(* queued transfers are known, so the trace spec runs the model's transfer semantics   *)
+(* (in order; amount 0 skipped; from = to, or amount > balance at that point, fails    *)
+(* the whole transaction) from the recorded starting balances.  A transaction the      *)
+(* real code applied must be one the model applies, with exactly the model's net       *)
+(* balance changes.                                                                    *)
+RECURSIVE Sim(_, _, _)
+Sim(b, q, i) ==
+  IF i > Len(q) THEN [ok |-> TRUE, bal |-> b]
+  ELSE LET t == q[i] IN
+       IF t.amt = 0 THEN Sim(b, q, i + 1)
+       ELSE IF t.from = t.to \/ t.huge \/ Get(b, t.from, 0) < t.amt THEN [ok |-> FALSE, bal |-> b]
+       ELSE Sim(Add(Add(b, t.from, -t.amt), t.to, t.amt), q, i + 1)
+FeeQ == IF ev.fee = 0 THEN <<>> ELSE <<[from |-> ev.from, to |-> "minersc", amt |-> ev.fee, huge |-> FALSE]>>
+FullQueue == ev.queue \o FeeQ \o ev.squeue
+PreFun == PutPairs(<<>>, ev.qpre, 1)
+C05_QueueSemantics ==
+  (IsTxn /\ ev.probe /\ ev.class = "ok") =>
+     LET r == Sim(PreFun, FullQueue, 1) IN
+       /\ r.ok
+       /\ \A a \in DOMAIN PreFun : (PreFun[a] < Cap) => Delta(a) = r.bal[a] - PreFun[a]
 =============================================================================
